@@ -547,6 +547,94 @@ func scenC03(run *vlab.Run, sx, tmp string) {
 	}
 }
 
+// backlog: thousands of replies while nobody reads stdout for a while (the pipe fills, results queue up in the
+// engine's two 1000-slot buffers, the receiver is back-pressured): when the consumer comes back every reply
+// must still be printed exactly once, with its own fields.
+func init() { scenarios["c03backlog"] = scenC03Backlog }
+
+func scenC03Backlog(run *vlab.Run, sx, tmp string) {
+	rng := run.Rand("c03backlog")
+	n := run.Pick(4, 24)
+	for i := 0; i < n; i++ {
+		if !run.Mine(i) {
+			continue
+		}
+		kind := []string{"tcp", "icmp", "arp", "tcp"}[i%4]
+		s := &wireSpec{Kind: kind, Link: "tap", Mode: "subnet", Subnet: fmt.Sprintf("10.9.%d.0/%d", 16*(1+rng.Intn(14)), 20)}
+		switch kind {
+		case "tcp":
+			s.Cmd, s.Ports = [][]string{{"tcp", "syn"}, {"tcp", "fin"}}[i/4%2], fmt.Sprint(1+rng.Intn(65535))
+		case "icmp":
+			s.Cmd = []string{"icmp"}
+		default:
+			s.Cmd = []string{"arp"}
+		}
+		s.Extra = []string{"--srcip", foreignSrcIP, "--exit-delay", "3s"}
+		args, stdin := wireArgs(tmp, s)
+		run.Case(fmt.Sprintf("backlog%03d", i), args)
+		var mu sync.Mutex
+		exp := map[string]int{}
+		prng := rand.New(rand.NewSource(int64(i)))
+		res := RunCase(sx, &CaseSpec{Args: args, Stdin: stdin, Setup: commonWorld("tap"), Timeout: 120 * time.Second, StdoutHold: 1200 * time.Millisecond,
+			OnTx: func(c *CaseRun, d *Dev, frame []byte) {
+				dec, a, port, ok := decodeProbe(kind, frame, oracle.LinkEthernet)
+				if !ok {
+					return
+				}
+				fr, rec := replyFor(kind, oracle.LinkEthernet, dec, a, port, prng)
+				if kind == "tcp" && s.Cmd[1] == "fin" {
+					rec = recTCP(ipS(a), port, "sa")
+				}
+				mu.Lock()
+				exp[rec]++
+				mu.Unlock()
+				c.Inject(d, fr)
+			}})
+		run.Eval(1)
+		if !baseChecks(run, res, args, true) {
+			continue
+		}
+		got := map[string]int{}
+		for _, l := range res.Stdout {
+			rec, err := parseRecord(strings.TrimSpace(l))
+			if err != nil {
+				run.Violation("unparseable-record", fmt.Sprintf("stdout line is not a record: %.200q", l), args)
+				continue
+			}
+			got[rec]++
+		}
+		extra, missing := 0, 0
+		example := ""
+		for r, c := range got {
+			if c > exp[r] {
+				extra += c - exp[r]
+				example = r
+			}
+		}
+		for r, c := range exp {
+			if got[r] < c {
+				missing += c - got[r]
+			}
+		}
+		if extra > 0 {
+			run.Violation("backlog:record-repeated-or-foreign", fmt.Sprintf("%d records more than replies were injected (e.g. %q x%d for x%d) after the output consumer had stalled for 1.2 s with %d replies pending: %s", extra, example, got[example], exp[example], len(exp), strings.Join(args, " ")), args)
+		}
+		if missing > 0 {
+			if res.Stall > 200*time.Millisecond {
+				run.Inconclusive("records missing after a stalled consumer, monitor stalled too")
+			} else {
+				run.Violation("backlog:record-lost", fmt.Sprintf("%d of %d replies were never printed although the consumer came back 1.8 s before the exit delay ended: %s", missing, len(exp), strings.Join(args, " ")), args)
+			}
+		}
+		if extra == 0 && missing == 0 {
+			run.Count("backlog_runs_ok", 1)
+		}
+		run.Count("backlog_runs", 1)
+		run.Count("backlog_replies", int64(len(res.Stdout)))
+		run.Distinct(strings.Join(args, " "))
+	}
+}
+
 // ---------------------------------------------------------------------------
 // prefilter: traffic that is already flowing when the scan starts. Between the creation of the
 // AF_PACKET socket and the attachment of the BPF program the socket queues every frame; those
